@@ -241,6 +241,32 @@ func vfRunHandshake(t *testing.T, spec *vfSpec, res *vfRes) {
 				res.violate("C04", "post/no-transfer-after-replay", "after replaying handshake packets data no longer flows")
 			}
 		}
+		// a quiet period longer than the whole T1 retry budget: an established endpoint must have stopped its
+		// handshake timers (no INIT / COOKIE-ECHO any more) and must stay responsive when they would have run out
+		time.Sleep(vfExpectedT1(math.Max(spec.A.RTOMaxMs, spec.B.RTOMaxMs)) + time.Minute)
+		for _, e := range sim.net.events() {
+			if e.Kind != vfWrWrite || e.T <= estT {
+				continue
+			}
+			if k := vfFirstChunkKind(e.Raw); k == "INIT" || k == "COOKIE-ECHO" {
+				res.violate("C04", "post/stale-"+k, "side %d wrote %s at %v, %v after both connect calls had returned (faults [%s], role %s): a handshake timer survived establishment", e.Side, k, e.T, e.T-estT, spec.XS["faults"], spec.XS["role"])
+
+				break
+			}
+		}
+		for side := 0; side < 2; side++ {
+			a := sim.getAssoc(side)
+			done := make(chan struct{})
+			go func() {
+				_ = a.BufferedAmount()
+				_, _ = a.Metadata()
+				close(done)
+			}()
+			if vfWaitCh(done, time.Second) != nil {
+				res.violate("C04", "post/wedged", "side %d: BufferedAmount() does not return after the quiet period (faults [%s], role %s)", side, spec.XS["faults"], spec.XS["role"])
+			}
+		}
+		res.count("c04_quiet_periods", 1)
 		sim.quiesce()
 		sim.teardown()
 		w.waitReaders(10 * time.Second)
